@@ -31,6 +31,12 @@ CHECKS = {
  "C08": dict(engine="multirange", design="5 C08", technique="TLA+ transcription of the sorted setter and the _range_search loop (MultiRange.tla) checked by TLC against the declarative Allowed set for every listing; every listing replayed on Multi_Range_Potential_Form* (API and potable text) with range-identifying sub-potentials, four query orders per object",
    text="TLC proves, for every listing of <=3 (quick) / <=5 (thorough) ranges over {>,>=} x 4 starts and 9 query points, that the transcribed algorithm selects an allowed range, is listing-order independent and returns the default only below the first range; the replay checks the real class against the TLC-emitted allowed sets for value, deriv and deriv2 (same range), across evaluation histories on one object, across all listings of one multiset, and API vs potable text incl. the implicit '>0'.",
    note="Tie above a start shared by '>' and '>=': either range accepted (the suite pins the exclusive one); identical (marker,start) duplicates excluded from order independence (DESIGN C08)."),
+ "C10": dict(engine="splines", design="5 C10", technique="TLA+ region machine (Spline.tla: transcription of Custom_SplinePotential.__call__ / _which_spline vs the statement, TLC over knot triples x query lattice), defining equations of both spline kinds as exact rational rows and the cubic identity family computed by TLC; replay: residuals of the rows with the implementation's coefficients, C2 continuity, regions, identity family, construction routes",
+   text="RegionOK for every knot triple and query point; for every emitted knot triple x 7 start/end pairs of built-in forms (several with zero / negative end values) x {buck4, exp}: each of the 10 / 6 defining equations holds for splineCoefficients and the end-point jets, value/slope/curvature agree at detach, attach and across r_min, slope 0 at r_min, the callable is start below detach, end above attach and the advertised polynomial / exp(quintic)+C between; start = end = cubic stationary at r_min gives exactly that cubic; Buck4_SplinePotential = potentialforms.buck4 = as.buck4 = spline(... buck4_spline ...), SplinePotential = spline(... exp_spline ...).",
+   note="Well-conditioned knot range only (half-integer knots 0.5..3); tolerances 1e-7/1e-8 relative to the cancellation scale of the polynomial evaluation. Two passes over the knots in one process (no dependence on earlier splines)."),
+ "C18": dict(engine="tables", design="5 C18", technique="TLA+ transcription of TableReader.getValue/_findIndex vs the declarative linear interpolant, of the line-by-line file reader (StripsLastChar deviation), of plotToFile's rows, and exact cubic table-form cases (TableForm.tla, TLC); every emitted data set, file, plot range and table replayed on TableReader, plot/plotToFile/plotPotentialObjectToFile and [Table-Form] sections",
+   text="ReaderOK / BetweenNeighbours for all data sets <=3 rows x 9 query points (ASSUME-checked by TLC), FileReadOK for all files of <=2 lines x 5 line kinds x final newline or not; replay of all of them in shuffled row order; 54 plot cases x 3 entry points (row count, x_i, y_i); 16 cubic table forms x 3 input spellings (x/y, xy, reordered with interpolation): pass-through, zero outside, equality of spellings, value/deriv/deriv2 = the cubic, force, sum(tf, ...) derivative; random non-cubic tables up to 200 points: pass-through, zero outside, derivative consistency.",
+   note="Derivatives of interpolants of non-cubic data are only checked against finite differences of the same interpolant (1e-5). Defect F12 repaired."),
  "C11": dict(engine="grid", design="5 C11", technique="TLA+ transcription of _TabulationCutoff._init_cutoff (Grid.tla) checked by TLC against the declarative decision table for all 216 presence/sign classes; decision table and a decimal commensurate lattice emitted by TLC replayed on ConfigParser, Configuration.read and written tables for both grids",
    text="ImplAgrees (transcription = statement) for every class of (nr, dr, cutoff); the replay runs each class and ~2.5k (quick) / ~70k (thorough) decimal (step, k) pairs typed as decimal strings through the real parser for both grids, and reads row count, spacing and last row back from LAMMPS, setfl and Excel tables.",
    note="The unrepaired-code model (Python truthiness) is kept as Grid_code.cfg and must violate ImplAgrees (anti-vacuity). Two genuine defects repaired (F01, F19)."),
@@ -96,6 +102,8 @@ ENGINES = {
  "layout": "TLC on spec/Layout.tla (writer step machines x consumer models x fault model) + replay of every emitted case through the real code",
  "multirange": "TLC on spec/MultiRange.tla + replay of every listing on the real multi-range classes",
  "forms": "TLC on spec/Builtin.tla + replay through the four access routes in a fresh process",
+ "splines": "TLC on spec/Spline.tla + replay on the spline classes, modifier and as.buck4",
+ "tables": "TLC on spec/TableForm.tla + replay on TableReader, plot helpers and [Table-Form]",
  "algebra": "TLC on spec/PotExpr.tla and spec/FormEval.tla (+ Builtin.tla for leaf derivatives) + replay of every definition / program on the real registry, builders and combinators",
  "inidoc": "TLC on spec/IniDoc.tla / Vars.tla / Views.tla + replay of every emitted case through potable and the ConfigParser API against the hand-edited file",
  "grid": "TLC on spec/Grid.tla + replay of the decision table and decimal lattice on the real parser and written tables",
